@@ -20,6 +20,7 @@ import ApiFu.C02.Data
 import ApiFu.C02.Term
 import ApiFu.C02.Errors
 import ApiFu.C02.Required
+import ApiFu.C02.Nulls
 
 namespace ApiFu.C02
 
@@ -202,6 +203,32 @@ theorem required_errors_eq (rq : Request) (sched' : List Nat) (hd : Field.distin
     have h2 := count_le_one_of_nodup (no_duplicate_error (rq.allSync sched') hd') e
     omega
 
+/-- **visible_null_has_error.** For every request, async subset and schedule: every null that the
+    reference semantics leaves visible in the data *because something failed* (`Spec.nulls`: a
+    nullable field or list item whose resolver failed or beneath which a field error propagated;
+    the root when the whole data is null) has at least one error in the response's error list that
+    explains it — one of the field errors of the failed sub-plan, its path extending the path of
+    the null. (Which of several candidates is reported may depend on the schedule; that one is
+    does not.) Together with `errors_are_field_errors` / `every error leads to a null`: no silent
+    null, for any schedule. -/
+theorem visible_null_has_error (rq : Request) :
+    ∀ pc ∈ Spec.nulls rq, ∃ e ∈ pc.2, e ∈ (run rq).errors ∧ pc.1 <+: e.path := by
+  obtain ⟨r, h⟩ := execute_terminates rq
+  intro pc hpc
+  obtain ⟨e, he, hr⟩ := nulls_hit rq r h pc hpc
+  exact ⟨e, he, by rw [run_errors]; exact hr, nulls_prefix rq pc hpc e he⟩
+
+/-- **visible_nulls_eq_sync.** The failure-nulls (positions and candidate sets) are the same for
+    the request and for its all-synchronous counterpart — they are read off the plan, not off a
+    run — so both responses have an explaining error for each of them. -/
+theorem visible_nulls_eq_sync (rq : Request) (sched' : List Nat) :
+    Spec.nulls (rq.allSync sched') = Spec.nulls rq ∧
+    ∀ pc ∈ Spec.nulls rq, (∃ e ∈ pc.2, e ∈ (run rq).errors) ∧ (∃ e ∈ pc.2, e ∈ (run (rq.allSync sched')).errors) := by
+  refine ⟨nulls_allSync rq sched', fun pc hpc => ⟨?_, ?_⟩⟩
+  · obtain ⟨e, he, hr, _⟩ := visible_null_has_error rq pc hpc; exact ⟨e, he, hr⟩
+  · obtain ⟨e, he, hr, _⟩ := visible_null_has_error (rq.allSync sched') pc (by rw [nulls_allSync]; exact hpc)
+    exact ⟨e, he, hr⟩
+
 /-- **rounds_le_promises.** Whenever execution returns, the number of idle rounds is at most the
     number of promises created: every round the model lets happen fulfils at least one outstanding
     promise (`idleRound_spec`), for every schedule. -/
@@ -264,6 +291,12 @@ def reqExample : Request :=
 example : Spec.required reqExample = [⟨[.key "a"], "boom"⟩] := by
   simp [Spec.required, reqExample, Spec.fieldsOk, Spec.comp, Out.caught, Out.isOk, Out.nonNull, Spec.reqF, Spec.reqHead,
     Spec.reqC]
+
+/-- Non-vacuity of `visible_null_has_error`: in `exampleRequest` the null at `obj` is explained by
+    the error of `obj.nn`, one level down. -/
+example : Spec.nulls exampleRequest = [([.key "obj"], [⟨[.key "obj", .key "nn"], "boom"⟩])] := by
+  simp [Spec.nulls, exampleRequest, Spec.fieldsOk, Spec.comp, Out.caught, Out.isOk, Out.nonNull, Spec.nullsF,
+    Spec.nullHead, Spec.nullsC, Spec.errsC, Spec.errsF, Spec.headErrs]
 
 example : Spec.request exampleRequest = .ok (.obj [] 2) := by
   simp [Spec.request, exampleRequest, Spec.fieldsOk, Spec.comp, Out.caught, Out.isOk, Out.nonNull]
